@@ -111,7 +111,7 @@ def nlp_diff(p):
             except Exception as e:
                 bad.append(dict(variable="/".join(str(t) for t in tag), observed="cannot be read back: %s" % str(e)[:100]))
                 continue
-            want = np.array(ca.evalf(ca.MX(exp))).reshape(-1)
+            want = np.array(opti.debug.value(ca.MX(exp), start)).reshape(-1)
             if got.shape != want.shape or np.max(np.abs(got - want)) > 1e-9 * (1 + np.max(np.abs(want))):
                 bad.append(dict(variable="/".join(str(t) for t in tag), observed=got.tolist(), expected=want.tolist()))
         if bad:
